@@ -149,14 +149,15 @@ def evalInstructions {σ : Type} (sem : CmdSem σ) (is : List Instruction) :
     | some instr =>
       match instr.ty with
       | .script si =>
-        match runInstruction sem vars s instr line with
-        | (.exit v, _, vars', s') => some (.exit v, vars', s')
-        | (.error m, _, vars', s') => some (.error m, vars', s')
-        | (.crash m, _, vars', s') => some (.crash m, vars', s')
-        | (.goTo v (.label l), _, vars', s') => some (.gotoLabel v l, vars', s')
-        | (.goTo v (.line n), _, vars', s') => evalInstructions sem is fuel n v vars' s'
-        | (.continue v, _, vars', s') =>
-          evalInstructions sem is fuel (line + 1) v (vars'.updateOutput si.output v) s'
+        let r := runInstruction sem vars s instr line
+        match r.1 with
+        | .exit v => some (.exit v, r.2.2.1, r.2.2.2)
+        | .error m => some (.error m, r.2.2.1, r.2.2.2)
+        | .crash m => some (.crash m, r.2.2.1, r.2.2.2)
+        | .goTo v (.label l) => some (.gotoLabel v l, r.2.2.1, r.2.2.2)
+        | .goTo v (.line n) => evalInstructions sem is fuel n v r.2.2.1 r.2.2.2
+        | .continue v =>
+          evalInstructions sem is fuel (line + 1) v (r.2.2.1.updateOutput si.output v) r.2.2.2
       | _ => evalInstructions sem is fuel (line + 1) flowOut vars s
 
 def outOfFuelMsg : Str := "<model: out of fuel>".toList
@@ -165,6 +166,30 @@ def outOfFuelMsg : Str := "<model: out of fuel>".toList
 def scriptBody {σ : Type} (sem : CmdSem σ) (fuel : Nat) (is : List Instruction)
     (vars : Vars) (st : σ) : BodyResult × Vars × σ :=
   (evalInstructions sem is fuel 0 none vars st).getD (.crash outOfFuelMsg, vars, st)
+
+
+/-! ### a concrete handle table (driver, non-vacuity of `HandleOps.Lawful`) -/
+
+structure Store where
+  /-- live handles with the array they hold -/
+  handles : List (Str × List Str) := []
+  ctx : Str := []
+deriving Repr, Inhabited
+
+def maxLen : List (Str × List Str) → Nat
+  | [] => 0
+  | (k, _) :: r => max k.length (maxLen r)
+
+/-- `put_handle` draws a random key; the model takes one that is longer than every live key
+    (only freshness matters, handle names are never observed) -/
+def freshName (l : List (Str × List Str)) : Str := List.replicate (maxLen l + 1) '#'
+
+def storeOps : HandleOps Store where
+  put s v := (freshName s.handles, { s with handles := (freshName s.handles, v) :: s.handles })
+  remove s h := { s with handles := s.handles.filter fun p => p.1 != h }
+  getCtx s := s.ctx
+  setCtx s c := { s with ctx := c }
+  live s k := s.handles.any fun p => p.1 == k
 
 /-! ### static reading of a script (for the per-script facts over `Generated.scripts`) -/
 
